@@ -25,7 +25,9 @@ def dumpQR (s : LMQR Float) : String :=
   let qE := (List.range K).flatMap fun k => (List.range s.n).map fun i => s.Q.get i k
   s!"{K} {lmqrRingHead s.qIdx s.rStart s.rEnd} {lmqrRingTail s.qIdx s.rStart s.rEnd} " ++
   s!"{lmqrCurrentHistory s.qIdx s.rStart s.rEnd} {s.reorth} {fmtF s.minEig} {fmtF s.maxEig} " ++
-  s!"| {pairs s.ringFwd} | {pairs s.ringRev} | {fmtV rE} | {fmtV qE}"
+  let nx := (List.range s.m).map (lmqrRingNext s.m) ++ (List.range s.m).map (lmqrRingPrev s.m)
+  s!"| {pairs s.ringFwd} | {pairs s.ringRev} | {String.intercalate " " (toString nx.length :: nx.map toString)} " ++
+  s!"| {fmtV rE} | {fmtV qE}"
 
 def dumpAA (a : AA Float) : String :=
   let q := a.qr
